@@ -189,39 +189,7 @@ def origin_of_place(fn, place, depth=12, _seen=None):
                 o = Origin("index", None, [o, origin_of_local(fn, e["idx"], depth - 1, _seen)])
             elif "v" in e:
                 vn = e.get("vn", e["v"])
-                s0 = o.strip()
-                if s0.k == "phi" and any(k_.strip().k == "phi" for k_ in s0.kids):
-                    # alternatives of alternatives (a value handed through several joins): one flat list, duplicates once
-                    flat_, seen_ = [], set()
-                    st_ = list(s0.kids)
-                    while st_:
-                        k_ = st_.pop(0)
-                        if k_.strip().k == "phi":
-                            st_ = list(k_.strip().kids) + st_
-                            continue
-                        key_ = (k_.fmt(), k_.strip().bb)
-                        if key_ not in seen_:
-                            seen_.add(key_)
-                            flat_.append(k_)
-                    s0 = Origin("phi", s0.a, flat_, s0.bb)
-                    o = s0
-                if s0.k == "phi":
-                    # only the definitions that build this variant can reach a read of its payload
-                    lit = [k for k in s0.kids if k.strip().k == "agg" and "::" in str(k.strip().a)]
-                    keep = [k for k in s0.kids if not (k.strip().k == "agg" and "::" in str(k.strip().a) and not str(k.strip().a).endswith("::%s" % vn))]
-                    if str(vn) in ("Ok", "Some"):
-                        # what `?` hands back is the failure variant: never the value whose success payload is read
-                        keep = [k for k in keep if not (k.strip().k == "call" and k.strip().a.get("name") == "from_residual")]
-                    if lit and keep and len(keep) < len(s0.kids):
-                        o = keep[0] if len(keep) == 1 else Origin("phi", s0.a, keep)
-                # `x?`: the Continue payload of Try::branch(x) is the success payload of x itself
-                s1 = o.strip()
-                if str(vn) == "Continue" and s1.k == "call" and s1.a.get("name") == "branch" and "Try" in str(s1.a.get("callee", "")) and s1.kids:
-                    inst = str(s1.a.get("inst") or "").lstrip("<")
-                    if inst.startswith(("std::result::Result", "core::result::Result", "Result<")):
-                        o, vn = s1.kids[0], "Ok"
-                    elif inst.startswith(("std::option::Option", "core::option::Option", "Option<")):
-                        o, vn = s1.kids[0], "Some"
+                o, vn = _variant_view(o, vn)
                 o = Origin("variant", vn, [o])
             elif "cidx" in e:
                 o = Origin("index", None, [o, Origin("const", {"k": "int", "v": e["cidx"], "from_end": e["from_end"]})])
@@ -230,6 +198,87 @@ def origin_of_place(fn, place, depth=12, _seen=None):
         else:
             o = Origin("unknown", e, [o])
     return o
+
+
+def _flatten_alts(s0):
+    """alternatives of alternatives (a value handed through several joins): one flat list, duplicates once"""
+    if not (s0.k == "phi" and any(k_.strip().k == "phi" for k_ in s0.kids)):
+        return s0
+    flat_, seen_ = [], set()
+    st_ = list(s0.kids)
+    while st_:
+        k_ = st_.pop(0)
+        if k_.strip().k == "phi":
+            st_ = list(k_.strip().kids) + st_
+            continue
+        key_ = (k_.fmt(), k_.strip().bb)
+        if key_ not in seen_:
+            seen_.add(key_)
+            flat_.append(k_)
+    return Origin("phi", s0.a, flat_, s0.bb)
+
+
+def _try_arg(k_):
+    """(operand, success variant name) when k_ is `Try::branch(operand)` of a Result/Option"""
+    s1 = k_.strip()
+    if s1.k == "call" and s1.a.get("name") == "branch" and "Try" in str(s1.a.get("callee", "")) and s1.kids:
+        inst = str(s1.a.get("inst") or "").lstrip("<")
+        if inst.startswith(("std::result::Result", "core::result::Result", "Result<")):
+            return s1.kids[0], "Ok"
+        if inst.startswith(("std::option::Option", "core::option::Option", "Option<")):
+            return s1.kids[0], "Some"
+    return None
+
+
+def _variant_view(o, vn):
+    """the value whose variant `vn` is being read, in normal form: `x?` reads the success payload of x itself; of the
+    alternatives of a joined value only those that can be that variant remain"""
+    for _ in range(3):
+        s0 = _flatten_alts(o.strip())
+        if s0.k == "phi":
+            o = s0
+        # `x?`: the Continue payload of Try::branch(x) is the success payload of x itself (also when the branch call was
+        # duplicated by threading: every alternative is such a call)
+        if str(vn) == "Continue":
+            ta = _try_arg(o)
+            if ta is not None:
+                o, vn = ta
+                continue
+            if s0.k == "phi" and s0.kids and all(_try_arg(k_) is not None for k_ in s0.kids) and len({_try_arg(k_)[1] for k_ in s0.kids}) == 1:
+                vn = _try_arg(s0.kids[0])[1]
+                o = Origin("phi", s0.a, [_try_arg(k_)[0] for k_ in s0.kids], s0.bb)
+                continue
+        if s0.k == "phi":
+            # only the definitions that build this variant can reach a read of its payload
+            lit = [k for k in s0.kids if k.strip().k == "agg" and "::" in str(k.strip().a)]
+            keep = [k for k in s0.kids if not (k.strip().k == "agg" and "::" in str(k.strip().a) and not str(k.strip().a).endswith("::%s" % vn))]
+            if str(vn) in ("Ok", "Some"):
+                # what `?` hands back is the failure variant: never the value whose success payload is read
+                keep = [k for k in keep if not (k.strip().k == "call" and k.strip().a.get("name") == "from_residual")]
+            if lit and keep and len(keep) < len(s0.kids):
+                o = keep[0] if len(keep) == 1 else Origin("phi", s0.a, keep)
+        break
+    return o, vn
+
+
+def renorm(o):
+    """re-apply the variant/payload normal forms to a tree that was expanded after it was built (expanding a variable can
+    put a `?` or a joined literal under a payload read that was opaque before)"""
+    if not isinstance(o, Origin):
+        return o
+    kids = [renorm(k) for k in o.kids]
+    if o.k == "variant" and kids:
+        inner, vn = _variant_view(kids[0], o.a)
+        return Origin("variant", vn, [inner], o.bb)
+    if o.k == "field" and kids and kids[0].k == "variant" and kids[0].kids and str(o.a).isdigit():
+        v = kids[0]
+        inner = v.kids[0].strip()
+        f_ = int(o.a)
+        if inner.k == "agg" and str(inner.a).endswith("::%s" % v.a) and f_ < len(inner.kids) and not str(inner.a).startswith("closure:"):
+            return inner.kids[f_]
+        if inner.k == "phi" and inner.kids and all(k_.strip().k == "agg" and str(k_.strip().a).endswith("::%s" % v.a) and f_ < len(k_.strip().kids) for k_ in inner.kids):
+            return Origin("phi", inner.a, [Origin(k_.strip().kids[f_].k, k_.strip().kids[f_].a, k_.strip().kids[f_].kids, k_.strip().bb) for k_ in inner.kids], inner.bb)
+    return Origin(o.k, o.a, kids, o.bb)
 
 
 def origin_of_local(fn, l, depth=12, _seen=None):
